@@ -268,7 +268,7 @@ def finish(prop, tier, seed, pm, funcs: list[dict], extras: list[Extra], t0, upd
                    'function_sha': o.get('sha'), 'backend': o.get('backend'), 'model': o.get('model'),
                    'note': o.get('note'), 'line': o.get('line'), 'tier': tier,
                    'solver_output': 'sat' if o['kind'] not in ('static', 'bounded', 'lean') else o.get('note', '')}
-        rp = o.get('replay_code') or getattr(pm, 'REPLAYS', {}).get(base_name(o['name']))
+        rp = o.get('replay_code') or getattr(pm, 'REPLAYS', {}).get(base_name(o['name'])) or getattr(pm, 'REPLAYS', {}).get('*')
         if rp:
             payload['replay_code'] = rp
         path = write_replay(prop, o['name'], payload)
